@@ -28,6 +28,51 @@ from skepticoin.networking.messages import (
     MessageHeader, Message, GetBlocksMessage, InventoryMessage, DataMessage, DATA_BLOCK, DATA_TRANSACTION)
 
 
+def real_sync(server, requester, loc, fuel):
+    """the whole exchange with the real handlers on both sides: inventory, the requester's data requests, the responder's
+    answers to them, the requester's block handler on each answer (in_response_to != 0), follow-up; returns the requester's
+    chain state at the end, or an error string"""
+    from skepticoin.networking.messages import GetDataMessage
+    rpeer, speer = requester.peers[0], server.peers[0]
+    for _ in range(fuel):
+        items = server_items(server, loc)
+        if items is None:
+            return "err server"
+        if not items:
+            break
+        n0 = len(requester.frames(rpeer))
+        try:
+            rpeer.handle_inventory_message_received(MessageHeader(0, 11, 0, 1), InventoryMessage(
+                [rp.InventoryItem(DATA_BLOCK, h) for h in items]))
+        except Exception as e:
+            return "err " + type(e).__name__
+        out = [m for _, m in requester.frames(rpeer)[n0:]]
+        rpeer.send_backlog.clear()
+        rpeer.send_buffer = b""
+        for m in out:
+            if isinstance(m, GetDataMessage):
+                k0 = len(server.frames(speer))
+                try:
+                    speer.handle_get_data_message_received(MessageHeader(0, 12, 0, 1), m)
+                except Exception as e:
+                    return "err server " + type(e).__name__
+                answers = [x for _, x in server.frames(speer)[k0:]]
+                speer.send_backlog.clear()
+                speer.send_buffer = b""
+                for dm in answers:
+                    try:
+                        rpeer.handle_data_message_received(MessageHeader(0, 13, 12, 1), dm)
+                    except Exception as e:
+                        return "err requester " + type(e).__name__
+        rpeer.send_backlog.clear()
+        rpeer.send_buffer = b""
+        nxt = [m for m in out if isinstance(m, GetBlocksMessage)]
+        if len(nxt) != 1:
+            return "err followup"
+        loc = list(nxt[0].potential_start_hashes)
+    return requester.cm.coinstate
+
+
 # ------------------------------------------------------------------ part A
 
 def reply_items(rn, locator_ids):
@@ -192,6 +237,31 @@ def part_a(ctx, res):
                     if asked != want:
                         res.violations.append({"kind": "the requester did not ask for exactly the listed blocks it lacks",
                                                "asked": len(asked), "expected": len(want)})
+                # the whole exchange (real handlers on both sides, blocks delivered as answers) against the model's `syncRun`
+                rq.cm.set_coinstate(req_state)
+                rq.store.write_buffer.clear()
+                node.CLOCK[0] = max(b_.timestamp for b_ in tree.blocks) + 1000
+                end = real_sync(rn, rq, loc, fuel)
+                qn = "q%d" % len(ops)
+                ops.append("new " + qn)
+                impl.append("ok")
+                for h_ in sorted(v.by_height_at_head().keys()):
+                    ops.append("addnv %s %s %s" % (qn, qn, hx(v.by_height_at_head()[h_].serialize())))
+                    impl.append("ok")
+                ops.append("node sync %s %d %d %s" % (qn, fuel, node.CLOCK[0], " ".join(x.hex() for x in loc)))
+                if isinstance(end, str):
+                    impl.append(end)
+                else:
+                    impl.append("ok head=%s height=%d stored=%d buffered=%d" % (
+                        end.current_chain_hash[:8].hex(), end.head().height, len(end.block_by_hash), len(rq.store.write_buffer)))
+                    # (M) one requester, one server: the requester ends at least as high as the server
+                    if end.head().height < srv_view.head().height:
+                        res.violations.append({"kind": "after the whole exchange with one server the requester's head (height %d) "
+                                                       "is lower than the server's (%d)" % (end.head().height, srv_view.head().height),
+                                               "server_height": srv_view.head().height, "requester_height": v.head().height})
+                res.case(("sync", si, head, other), nontrivial=True)
+                res.count("whole_exchanges")
+                rq.store.write_buffer.clear()
             # adversarial locators: shuffled, with unknown ids, single entries, empty
             for _ in range(ctx.scale(6, 20)):
                 k = rng.randrange(0, 6)
